@@ -45,6 +45,7 @@ SHIM_SO = os.path.join(VERIF, "build", "c19_crashshim.so")
 PY = "/venv/bin/python"
 REPO = os.environ.get("VERIF_REPO", "/repo")
 RECOVERY_SESSION = {"ops": [["open"]], "end": "close"}
+QUICK_TORN = ("single", "resume", "upgrade")    # quick tears writes (first boundary) only here; thorough everywhere
 
 
 class MachineryError(Exception):
@@ -61,7 +62,9 @@ def workloads(ctx: core.Ctx) -> list[dict]:
         # 16 insert calls through every insert path, one session, clean close
         {"name": "single", "keys": keys, "sessions": [
             {"ops": [["open"], ["cred", "a", None, 0], ["cred", "b", "a", 1], ["content", "c", 20000],
-                     ["again", "a"], ["subst", 2, 1], ["blob", "x", 300], ["blob", "y", 30000]],
+                     ["again", "a"], ["subst", 2, 1], ["blob", "x", 300], ["blob", "y", 30000],
+                     # boundary values of the record alphabet: empty / one-zero-byte content, empty blob
+                     ["content", "empty", 0], ["content", "nul", -1], ["blob", "void", 0]],
              "end": "close"}]},
         # the first process dies without closing (WAL left behind), the second one recovers and goes on
         {"name": "resume", "keys": keys, "double": True, "sessions": [
@@ -94,6 +97,13 @@ def workloads(ctx: core.Ctx) -> list[dict]:
                                                  ["cred", "h", "g", None]]],
                      ["with", "wallet", "ok", [["blob", "w6", 300], ["with", "wallet", "ok", [["blob", "w7", 300]]]]]],
              "end": "abandon"}]},
+        # records arrive through the real IdentityCommunity packet handlers, in the first session of the file: we
+        # attest for a solicited subject (on_disclosure: metadata + our attestation), a wallet insert as an idle
+        # moment of the identity database, a disclosure with a garbage tail (the handler raises after the metadata
+        # insert), another idle moment, then we are the subject and receive an attestation (on_attest)
+        {"name": "network", "keys": keys, "sessions": [
+            {"ops": [["net_attest", "n1"], ["blob", "i1", 300], ["net_garbage", "n2"], ["blob", "i2", 300],
+                     ["net_subject", "n3"], ["content", "empty", 0]], "end": "abandon"}]},
         # a pseudonym with more tokens than TokenTree.unchained holds (100): 135 credentials in chain order are
         # set-up (a "setup" session is run, not crash-enumerated); three more are added under full enumeration, and
         # every reopen (including the recovering session's own) rebuilds the 135+ token tree
@@ -451,20 +461,40 @@ def _pool_fn(chunk: list) -> list:
 # ------------------------------------------------------------------------------------------------------------
 
 def prepare(w: dict, session: int) -> dict:
-    """Template = state after the sessions before ``session``; then one unkilled, traced run of the session."""
+    """
+    Template = state after the sessions before ``session``; then one unkilled, traced run of the session.
+
+    A session that fails although nobody killed it (the worker exits with a Python exception) is not a machinery
+    problem but a tree that misbehaves, typically because an earlier session's records are gone: the directory is
+    judged by the normal oracle and the session is not crash-enumerated (``failed`` says why).
+    """
     template = new_dir("tmpl")
+
+    def gave_up(s: int, rundir: str, r: dict) -> dict:
+        v, info, _ = judge(rundir, w)
+        last = (r["stderr"].strip().splitlines() or ["?"])[-1]
+        if not v:
+            v = [(f"session-failed:{last.split(':')[0][:40]}", f"session {s} of the workload cannot be carried out "
+                  f"although nothing was killed: {last[:300]}")]
+        else:
+            v = [(k, f"{what} [noticed because session {s} then failed with: {last[:160]}]") for k, what in v]
+        return {"w": w, "template": template, "trace": [], "py_trace": [], "baseline_violations": v,
+                "inserts": 0, "baseline_acked": info["acked"], "failed": f"session {s}: {last[:200]}"}
+
     for s in range(session):
         r = run_worker(template, w, s, None)
         if r["rc"] != 0:
-            raise MachineryError(f"workload {w['name']} session {s} fails without any crash: {r['stderr']}")
+            return gave_up(s, template, r)
     probe = clone(template, "measure")
-    r = run_worker(probe, w, session, None, trace=True)
-    if r["rc"] != 0:
-        raise MachineryError(f"workload {w['name']} session {session} fails without any crash: {r['stderr']}")
-    trace = read_trace(probe)
-    v, info, _ = judge(probe, w)
-    events = read_log(probe)
-    shutil.rmtree(probe, ignore_errors=True)
+    try:
+        r = run_worker(probe, w, session, None, trace=True)
+        if r["rc"] != 0:
+            return gave_up(session, probe, r)
+        trace = read_trace(probe)
+        v, info, _ = judge(probe, w)
+        events = read_log(probe)
+    finally:
+        shutil.rmtree(probe, ignore_errors=True)
     return {"w": w, "template": template, "trace": trace, "py_trace": r["py_trace"], "baseline_violations": v,
             "inserts": sum(1 for e in events if e["e"] == "B"), "baseline_acked": info["acked"]}
 
@@ -489,7 +519,7 @@ def plan_items(ctx: core.Ctx, wi: int, session: int, p: dict) -> list:
             items.append((wi, session, [{"kind": "sys", "n": t["n"], "mode": mode, "torn": 0, "site": site}]))
         if "modes" not in w:
             for j in range(1, torn_points(t) + 1):
-                if ctx.thorough or j == 1:
+                if ctx.thorough or (j == 1 and w["name"] in QUICK_TORN):
                     items.append((wi, session, [{"kind": "sys", "n": t["n"], "mode": "torn", "torn": j, "site": site}]))
     if trace and "after" not in modes:
         t = trace[-1]
@@ -555,7 +585,8 @@ def _run(ctx: core.Ctx) -> core.Report:
             items += mine
             per_workload.append({"workload": w["name"], "session": session, "end": w["sessions"][session].get("end"),
                                  "insert_calls": p["inserts"], "syscall_points": len(p["trace"]),
-                                 "python_points": len(p["py_trace"]), "planned_chains": len(mine)})
+                                 "python_points": len(p["py_trace"]), "planned_chains": len(mine),
+                                 **({"not_enumerated_because": p["failed"]} if p.get("failed") else {})})
     # doubles are long: one per chunk, scheduled first
     doubles = [i for i in items if len(i[2]) == 2]
     singles = [i for i in items if len(i[2]) == 1]
@@ -632,7 +663,8 @@ def _run(ctx: core.Ctx) -> core.Report:
         "at most one attestation per (subject, metadata) is inserted, because the Attestations table's primary key "
         "(public_key, metadata_pointer) makes INSERT OR IGNORE drop a second authority's attestation even without a "
         "crash; that is not a crash-safety matter and is not judged here",
-        "torn writes are cut only at 4 KiB page-cache boundaries" + ("" if ctx.thorough else " (first boundary only)"),
+        "torn writes are cut only at 4 KiB page-cache boundaries" + ("" if ctx.thorough else
+                                                                     f" (quick: first boundary, workloads {QUICK_TORN})"),
         "the acknowledgement is logged after each IdentityDatabase.insert_* / AttestationsDB.insert_attestation call "
         "returns (class-level wrapper in the worker), which is the granularity the statement uses",
     ])
@@ -644,7 +676,7 @@ def replay(ctx: core.Ctx, data: dict) -> list:
         w, session, chain = data["workload"], data["session"], data["chain"]
         p = prepare(w, session)
         out = []
-        if not chain:
+        if not chain or p.get("failed"):
             out = [core.Violation("no-crash:" + k, what) for k, what in p["baseline_violations"]]
         else:
             for r in execute(p["template"], w, session, chain):
